@@ -185,7 +185,7 @@ def ldap_response_variants(rng):
     wire = ref.ldap_start_tls_response(int(code), rng.choice([0, 1, 2, 127, 128, 65535, 2 ** 31 - 1]),
                                        rng.choice([b'', b'dc=example,dc=com']),
                                        rng.choice([b'', b'TLS already started', b'x' * 127, rbytes(rng, 200).hex().encode('ascii'),
-                                                   b'd' * rng.choice([110, 120, 128, 255, 256, 70000])]),
+                                                   b'd' * rng.choice([110, 120, 128, 255, 256, 70000]), b'e' * rng.randrange(95, 135)]),
                                        rng.choice([None, b'1.3.6.1.4.1.1466.20037']),
                                        rng.choice([None, None, 1, 2, 4]), rng.choice([None, None, 1, 3, 4]))
     return Pair('ldap-start-tls-response-variant', ldap.LDAPExtendedResponseStartTLS(code), wire, {'wire_type': 'response'},
